@@ -362,6 +362,13 @@ pub fn run_c11(prop: &str, seed: u64, n: usize, rep: &mut Report) {
                         rep.tool_error(format!("generator produced a payload the oracle rejects: {} {}", inp.name, e.class));
                         continue;
                     }
+                    // C11 is about what FOLLOWS the payload: if the payload alone is not decoded to what the format
+                    // defines, that is C01 / C02's text
+                    let alone = run_kind(inp.fmt, &inp.data[..pl], k, &param, None);
+                    if alone.verdict != Verdict::Panic && (alone.verdict != Verdict::Ok || alone.out != e.out) {
+                        rep.drift(format!("(C01/C02 clause seen while checking {}) {}: the payload alone is rejected or mis-decoded", prop, inp.name), json!({"reader": k}));
+                        continue;
+                    }
                     if r.verdict != Verdict::Ok {
                         vs.push(format!("payload followed by {} unrelated bytes was rejected: {}", inp.data.len() - pl, r.msg));
                     } else {
